@@ -6,7 +6,7 @@ claimed = {
          "Within the instance grids (scaled block size 2..4, 1-3 files up to 2B+1 bytes, 9x9 shape relations) all byte values are covered by the solver at once; NONE compression only.",
          "memfs/md5/protobuf models; deterministic goroutine schedule; compression codecs outside the claim"),
  "C02": ("bounded symbolic execution of the overlay bowl (stage + Commit) under the real patcher on an in-memory file system; every iteration order of the maps visited during Commit explored as decisions; SMT-decided; native replay",
-         "For the 16 path-level relations x listed sizes, all contents (generic position) and all commit map orders: old build untouched before Commit, result == new build == fresh apply. Kind swaps are known findings.",
+         "For the 19 path-level relations x listed sizes, all contents (generic position) and all commit map orders: old build untouched before Commit, result == new build == fresh apply. Kind swaps are known findings.",
          "memfs/md5/protobuf models; scaled constants; deterministic goroutine schedule"),
  "C03": ("bounded symbolic execution of save/resume: patcher checkpoints serialized (gob model), interruption at every checkpoint index k and lag, in-progress output truncated to every length >= the checkpointed offset, brand-new patcher/pool/bowl resumed; SMT-decided",
          "For the two build pairs, fresh and overlay bowls, rsync and bsdiff series, every (k, lag, truncation) in the grid: resume succeeds and reproduces the uninterrupted result.",
@@ -14,15 +14,15 @@ claimed = {
  "C06": ("bounded symbolic execution of Validate with the archive healer (zip container model) over 12 damage shapes incl. kind swaps hiding subtrees, under delay/preemption-bounded schedules of validator/consumer/heal-worker goroutines with several default policies; native replay",
          "For every damage shape, contents and explored schedule in the bound: healing returns nil, the build is complete afterwards and fail-fast validation passes; a valid directory is untouched. One shape is a known finding.",
          "memfs (atomic calls = scheduling points)/zip container/md5/protobuf models; cooperative scheduler sound for DRF code"),
- "C15": ("bounded symbolic execution comparing, inside one path, the canonical run with a run under every explored schedule (delay bound 1-2, 3 policies), read slicing or map iteration order: patch/signature bytes, bsdiff control series, optimizer output; SMT decides byte equality for all contents",
-         "Determinism half: within the bounds the outputs are identical under every explored schedule/slicing/map order. The data-race half is decided only as far as DESIGN.md section 7 says (not claimed by this check).",
-         "cooperative scheduler (switches at visible operations only); memfs/md5/protobuf models"),
+ "C15": ("bounded symbolic execution comparing, inside one path, the canonical run with a run under every explored schedule (delay bound 1-2, 3 policies), read slicing or map iteration order: patch/signature bytes, bsdiff control series, optimizer output; SMT decides byte equality for all contents; plus an SMT predictive data-race query (happens-before order variables over the recorded event trace of WritePatch and bsdiff goroutines) confirmed natively under the Go race detector",
+         "Within the bounds the outputs are identical under every explored schedule/slicing/map order, and no pair of conflicting accesses of the analysed paths (<= 12 per race instance) can be re-ordered to coincide.",
+         "cooperative scheduler (switches at visible operations only); race query re-orders observed paths only (channel pairing and branch outcomes fixed); memfs/md5/protobuf models"),
  "C16": ("bounded symbolic execution of Validate under preemption-bounded schedules, with the cancellation instant as an explicit choice over every visible operation, scaled wound channel; deadlock = engine-detected violation; native replay",
          "For the damage patterns, consumers and every cancellation instant / schedule in the bound: Validate returns, and a nil fail-fast verdict implies a matching directory.",
          "memfs/context models; wound channel capacity scaled 1024->2; schedules beyond the bound not covered"),
- "C19": ("bounded symbolic execution of CompressZip/ExtractZip on the zip container model under preemption-bounded worker schedules; crash = atomic disk snapshot at the k-th reported entry, restored and restarted with the resume file; native replay",
-         "Zip only: for the 3 tree shapes, 1-3 workers and every interruption point/schedule in the bound the extracted tree and counts are right and a restart completes the tree.",
-         "tar not encodable (not_applicable part); zip/deflate formats not modelled; the counter data race is not observable under cooperative scheduling (see DESIGN.md)"),
+ "C19": ("bounded symbolic execution of CompressZip/ExtractZip on the zip container model under preemption-bounded worker schedules; crash = atomic disk snapshot at the k-th reported entry, restored and restarted with the resume file; SMT predictive data-race query over the worker goroutines; native replay (race candidates under the Go race detector)",
+         "Zip only: for the 3 tree shapes, 1-3 workers and every interruption point/schedule in the bound the extracted tree and counts are right, a restart completes the tree, and the analysed paths have no re-orderable conflicting accesses.",
+         "tar not encodable (stated outside the claim); zip/deflate formats not modelled (container model); race query covers wharf code only, not memory behind the memfs/zip models"),
  "C07": ("bounded symbolic execution of rediff.NewContext/Optimize (bsdiff.Do with workers, gosaca) followed by fresh and in-place application of the optimized patch; small alphabets; SMT-decided",
          "For all contents over the alphabet within the length bounds, the 5 shapes, partitions, ForceMapAll and size limits listed: Optimize succeeds and the optimized patch produces the new build.",
          "memfs/md5/protobuf/ozzo models; scaled constants; deterministic schedule"),
